@@ -2,6 +2,7 @@
 import random
 from typing import Iterator
 
+import core
 from core import Case, Prop, SelfCheckFailure
 from gen import hx, unhx, pool, out_pool, rbytes
 
@@ -33,29 +34,33 @@ def _tm_fields(t):
             "timestamp": hx(t.timestamp), "data": hx(t.source_data), "packet_len": int(t.packet_len)}
 
 
+def _s17_view(s):
+    return _tm_fields(s.pus_tm)
+
+
 def op_tm_new(a):
     return _tm_fields(_tm(a))
 
 
 def op_tm_pack(a):
     t = _tm(a)
-    raw = bytes(t.pack())
+    # (packs twice, the caller modifying the first returned buffer in between)
+    raw = core.pack_stable(t, "PusTm.pack()")
     if len(raw) != t.packet_len:
         raise SelfCheckFailure(f"len(pack())={len(raw)} != packet_len={t.packet_len}")
-    if bytes(t.pack()) != raw:
-        raise SelfCheckFailure("pack() twice gives different octets")
     if not check_pus_crc(raw):
         raise SelfCheckFailure("check_pus_crc rejects a freshly packed telemetry packet")
     t2 = PusTm.unpack(raw, len(t.timestamp))
     if not (t2 == t) or not (t == t2):
         raise SelfCheckFailure("unpack(pack(tm)) != tm under ==")
-    if _tm_fields(t2) != _tm_fields(t):
+    if core.ISOLATION.check("PusTm", t2, _tm_fields) != _tm_fields(t):
         raise SelfCheckFailure("unpack(pack(tm)) has different field values")
-    if bytes(t2.pack()) != raw:
+    if core.pack_stable(t2, "PusTm.pack() of a decoded packet") != raw:
         raise SelfCheckFailure("re-packing the decoded telemetry does not reproduce the octets")
     if raw[tmmod.PUS_TM_TIMESTAMP_OFFSET:tmmod.PUS_TM_TIMESTAMP_OFFSET + len(t.timestamp)] != bytes(t.timestamp):
         raise SelfCheckFailure("timestamp is not at PUS_TM_TIMESTAMP_OFFSET")
-    return {"raw": hx(raw), "sp_raw": hx(t.to_space_packet().pack()), "packet_len": int(t.packet_len)}
+    sp = core.pack_stable(t.to_space_packet(), "PusTm.to_space_packet().pack()")
+    return {"raw": hx(raw), "sp_raw": hx(sp), "packet_len": int(t.packet_len)}
 
 
 def op_tm_unpack(a):
@@ -64,16 +69,19 @@ def op_tm_unpack(a):
     # (before pack(), which recomputes the stored checksum)
     if t.crc16 is not None and bytes(t.crc16) != raw[t.packet_len - 2:t.packet_len]:
         raise SelfCheckFailure("crc16 of the decoded packet is not the packet's own trailer")
-    if bytes(t.pack()) != raw[:t.packet_len]:
+    # telemetry packets decoded by earlier calls must still show what they showed then
+    f = core.ISOLATION.check("PusTm", t, _tm_fields)
+    if core.pack_stable(t, "PusTm.pack() of a decoded packet") != raw[:t.packet_len]:
         raise SelfCheckFailure("pack(unpack(b)) != b[:packet_len]")
-    return _tm_fields(t)
+    return f
 
 
 def op_s17_pack(a):
     s = _s17(a)
-    raw = bytes(s.pack())
+    raw = core.pack_stable(s, "Service17Tm.pack()")
     s2 = Service17Tm.unpack(raw, len(s.timestamp))
-    if bytes(s2.pack()) != raw:
+    core.ISOLATION.check("Service17Tm", s2, _s17_view)
+    if core.pack_stable(s2, "Service17Tm.pack() of a decoded packet") != raw:
         raise SelfCheckFailure("Service17Tm re-pack differs")
     for attr in ("service", "subservice", "timestamp", "source_data", "ccsds_version"):
         if getattr(s2, attr) != getattr(s, attr):
@@ -85,7 +93,7 @@ def op_s17_pack(a):
 
 def op_s17_unpack(a):
     s = Service17Tm.unpack(unhx(a["raw"]), a["ts_len"])
-    return _tm_fields(s.pus_tm)
+    return core.ISOLATION.check("Service17Tm", s, _s17_view)
 
 
 def op_service_from_bytes(a):
@@ -192,6 +200,17 @@ class C03(Prop):
                     b = bytearray(raw)
                     b[pos] ^= 1 << rng.randint(0, 7)
                     yield Case({"op": "tm_unpack", "raw": hx(bytes(b)), "ts_len": ts}, "invalid", tag="bit-flip")
+        # back-to-back decodes of packets that differ in every field and in the timestamp length
+        for _ in range(1000 if thorough else 100):
+            a = rand_args(rng)
+            b = rand_args(rng, ts=rng.choice([x for x in TS_LENS if x != len(a["timestamp"]) // 2]))
+            for k in ("service", "subservice"):
+                b[k] = a[k] ^ 0xFF
+            b.update(apid=a["apid"] ^ 0x7FF, count=a["count"] ^ 0x3FFF, msg_counter=a["msg_counter"] ^ 0xFFFF,
+                     dest_id=a["dest_id"] ^ 0xFFFF, time_ref=a["time_ref"] ^ 0xF, version=a["version"] ^ 7)
+            for x in (a, b, a):
+                yield Case({"op": rng.choice(["tm_unpack", "tm_unpack", "s17_unpack"]), "raw": hx(bytes(_tm(x).pack()) + rbytes(rng, 2)),
+                            "ts_len": len(x["timestamp"]) // 2}, "valid", tag="complement-pair")
         a = rand_args(rng, 3, 4)
         raw = bytes(_tm(a).pack())
         for pos in range(6, 13):
